@@ -15,8 +15,19 @@ uses the committed baseline copy and the tie for that item rests on the correspo
 import ast, copy
 from common import repo_ast, find_def, GenError, HEADER
 import regex_tr
+import failclosed
 
 SRC = 'oslo_utils/netutils.py'
+# each function read below must be the one undecorated definition bound to its name (the skeleton comparison ignores decorators),
+# netaddr / INET_ATON / INET_PTON / re what the import lines say (tools/gen/failclosed.py)
+_NOD = {'defaults': {}}
+FAILCLOSED = {
+    'generate': [{'src': SRC, 'mod': 'oslo_utils.netutils',
+                  'functions': {'is_valid_ipv4': {'defaults': {'strict': failclosed.ANY}}, 'is_valid_ipv6': _NOD, 'is_valid_cidr': _NOD,
+                                'is_valid_ipv6_cidr': _NOD, 'is_valid_ip': _NOD, 'is_valid_mac': _NOD},
+                  'imports': {'netaddr': 'netaddr', 'INET_ATON': 'netaddr.core:INET_ATON', 'INET_PTON': 'netaddr.core:INET_PTON', 're': 're'}}],
+    'generate_code': [{'src': SRC, 'mod': 'oslo_utils.netutils',
+                       'functions': {'_is_int_in_range': _NOD, 'is_valid_port': _NOD, 'is_valid_icmp_type': _NOD, 'is_valid_icmp_code': _NOD}}]}
 
 # Templates: the function bodies as the model reads them.  A string constant '@name' marks a hole whose
 # source value is emitted as Coq constant `name`; every other constant must be identical in the source.
@@ -171,6 +182,7 @@ def mac_regex(pat):
 
 
 def generate():
+    failclosed.check_all(FAILCLOSED['generate'])
     tree = repo_ast(SRC)
     h = {}
     for name in TEMPLATES:
@@ -254,6 +266,7 @@ def generate_code():
     import py2gal
     from py2gal import Fn
     py2gal.COQ_TY.setdefault('pyval', 'pyval')
+    failclosed.check_all(FAILCLOSED['generate_code'])
     tree = repo_ast(SRC)
     funcs = {'int': Fn('py_int_of', ['pyval'], 'int', raises=True),
              'pyval_is_none__': Fn('pyval_is_none', ['pyval'], 'bool')}
